@@ -330,3 +330,39 @@ func boundaryCuts(a []byte) (out [][]byte, tags []string) {
 	}
 	return
 }
+
+// packetSubsequences: the header followed by every proper subsequence (order kept) of the payload
+// packets, the last kept packet re-flagged as final where the format carries a flag as the last
+// array element (V2 / signcryption) — what someone without any key can do to a multi-packet message
+func packetSubsequences(a []byte) (out [][]byte, tags []string) {
+	objs, ok := splitObjects(a)
+	if !ok || len(objs) < 3 {
+		return nil, nil
+	}
+	pk := objs[1:]
+	for mask := 1; mask < (1<<uint(len(pk)))-1; mask++ {
+		b := cloneBytes(objs[0])
+		tag := "subseq"
+		last := -1
+		for i := range pk {
+			if mask&(1<<uint(i)) != 0 {
+				last = i
+			}
+		}
+		for i := range pk {
+			if mask&(1<<uint(i)) == 0 {
+				continue
+			}
+			q := cloneBytes(pk[i])
+			tag += "-" + string(rune('0'+i))
+			if i == last && len(q) > 0 && q[len(q)-1] == 0xc2 {
+				q[len(q)-1] = 0xc3 // final flag false -> true
+				tag += "f"
+			}
+			b = append(b, q...)
+		}
+		out = append(out, b)
+		tags = append(tags, tag)
+	}
+	return
+}
